@@ -27,10 +27,18 @@ def main():
     subprocess.run(["git", "-C", "/repo", "apply", "--check", patch], check=True)
     subprocess.run(["git", "-C", "/repo", "apply", patch], check=True)
     t0 = time.time()
+    # the check rewrites evidence/<prop>.json: what it writes while a seeded change is applied is NOT evidence about /repo —
+    # keep the clean-tree record and put it back afterwards (the seeded run's record goes to <seed-dir>/evidence-<prop>.json)
+    evid = os.path.join(VERIF, "evidence", f"{prop}.json")
+    saved = open(evid).read() if os.path.exists(evid) else None
     try:
         p = subprocess.run([os.path.join(VERIF, "bin", "vk"), "check", prop, "--tier", tier], cwd=VERIF, capture_output=True, text=True)
     finally:
         subprocess.run(["git", "-C", "/repo", "checkout", "--", "."], check=True)
+        if os.path.exists(evid):
+            os.replace(evid, os.path.join(seed, f"evidence-{prop}.json"))
+        if saved is not None:
+            open(evid, "w").write(saved)
     out = p.stdout + p.stderr
     lines = [l for l in out.split("\n") if l.startswith(("VIOLATION", "  harness", "INCONCLUSIVE", "OK ", "KNOWN-FINDING")) or "counterexample" in l]
     print("\n".join(lines))
